@@ -303,6 +303,7 @@ func BasicAuthMiddlewareWithConfig(validTokens map[string]bool, config AuthRateL
 
 			// Check if client is locked out
 			if now.Before(tracker.lockedUntil) {
+				verifEvent("AuthCheck", clientIP, true, tracker.failures)
 				mu.Unlock()
 				remaining := tracker.lockedUntil.Sub(now).Round(time.Second)
 				log.Printf("[AUTH] IP %s is locked out for %v due to too many failed attempts", sanitizeLog(clientIP), remaining) // #nosec G706 -- sanitized
@@ -313,6 +314,7 @@ func BasicAuthMiddlewareWithConfig(validTokens map[string]bool, config AuthRateL
 			if exists && now.Sub(tracker.lastFailure) > config.ResetAfter {
 				tracker.failures = 0
 			}
+			verifEvent("AuthCheck", clientIP, false, tracker.failures)
 			mu.Unlock()
 
 			token := ctx.Request.Header.Get("Authorization")
@@ -335,6 +337,7 @@ func BasicAuthMiddlewareWithConfig(validTokens map[string]bool, config AuthRateL
 			// Success - reset failure count
 			mu.Lock()
 			tracker.failures = 0
+			verifEvent("AuthOK", clientIP)
 			mu.Unlock()
 
 			return next(ctx)
@@ -363,6 +366,7 @@ func recordAuthFailure(clientIP string, trackers map[string]*authFailureTracker,
 		log.Printf("[AUTH] IP %s locked out for %v after %d failed attempts", // #nosec G706 -- sanitized
 			sanitizeLog(clientIP), lockoutDuration, tracker.failures)
 	}
+	verifEvent("AuthFail", clientIP, tracker.failures, tracker.lockedUntil.Sub(tracker.lastFailure))
 }
 
 // trustedProxies holds the set of trusted proxy IPs using atomic.Value for
